@@ -32,7 +32,9 @@ for _p, _qs in _EXTRA.items():
 _LSB0_EXTRA = {
     'C01': ['bits.Bits.__getitem__', 'bitstream.ConstBitStream.__getitem__', 'bitstore.BitStore.getslice_withstep_lsb0', 'bitstore.BitStore.getindex_lsb0',
             'bitstore.BitStore.getslice_lsb0'],
-    'C17': ['bits.Bits._setbytes_with_truncation', 'bits.Bits._setbitarray', 'bits.Bits._setfile', 'bits.Bits._setauto'],
+    'C17': ['bits.Bits._setbytes_with_truncation', 'bits.Bits._setbitarray', 'bits.Bits._setfile', 'bits.Bits._setauto',
+            # tofile cuts the data into chunks with the option-dispatched slice: a file-backed source with a shorter logical length
+            'bitstore.BitStore.getslice_lsb0'],
     'C03': ['bitarray_.BitArray.__setitem__', 'bitstream.BitStream.__setitem__', 'bitarray_.BitArray.__delitem__', 'bitstream.BitStream.__delitem__',
             'bitarray_.BitArray.insert', 'bitstream.BitStream.insert', 'bitarray_.BitArray.overwrite', 'bitstream.ConstBitStream.overwrite',
             'bitarray_.BitArray.append', 'bitstream.ConstBitStream.append', 'bitarray_.BitArray.prepend', 'bitstream.BitStream.prepend', 'bitarray_.BitArray.reverse',
@@ -62,3 +64,17 @@ for _q, _names in _BIG.items():
     if _q in REGISTRY:
         for _sh in REGISTRY[_q].shapes:
             _sh.big = set(_names)
+
+
+# the stream and token-list readers of the exp-Golomb codes decide C10 as much as the codecs themselves: only their Golomb shapes
+# are added to C10's check (the other token kinds are C05/C06 business)
+_GOLOMB_SHAPES = {'bitstream.ConstBitStream.read': ('str-ue', 'str-se', 'str-uie', 'str-sie'), 'bitstream.ConstBitStream.peek': ('str-ue', 'str-se', 'str-uie', 'str-sie'),
+                  'bits.Bits._read_dtype_list': ('ue', 'se', 'uie', 'sie'), 'bitstream.ConstBitStream.readlist': ('ue', 'se', 'uie', 'sie'),
+                  'bitstream.ConstBitStream.peeklist': ('ue', 'se', 'uie', 'sie'), 'bits.Bits.unpack': ('ue', 'se', 'uie', 'sie')}
+for _q, _marks in _GOLOMB_SHAPES.items():
+    if _q in REGISTRY:
+        _c = REGISTRY[_q]
+        for _sh in _c.shapes:
+            _parts = set(_sh.name.replace(',', '/').replace(':', '/').split('/'))
+            if any(m in _parts for m in _marks) and not _sh.opts.get('lsb0'):
+                _sh.props = set(_sh.props if _sh.props is not None else _c.props) | {'C10'}
